@@ -9,36 +9,40 @@ From Verif Require Import Model.StatusExt Proofs.StatusExt.
 Open Scope N_scope.
 
 (* ------------------------------------------------------------------ writing and reading back *)
-(* any code, any UTF-8 message, any details, any metadata: written to the TRAILERS of a server
-   stream (Status::to_header_map) and read back is equal (metadata pointwise per name, minus the
-   names the protocol reserves).  The only bound is the capacity of http::HeaderMap itself:
-   24576 distinct names in the finished map; it is exact (c04_write_panics_iff). *)
+(* any code, any UTF-8 message, any details, ANY metadata - entries named grpc-status-details-bin
+   included, with empty and with non-empty details (finding F-C04e, fixed by commit ed827503: a
+   status without details now removes that header): written to the TRAILERS of a server stream
+   (Status::to_header_map) and read back, code, message and details are equal.  The metadata comes
+   back pointwise per name, minus the names the protocol reserves and minus what the user filed
+   under grpc-status-details-bin itself ([md_delivered]: that name is one of the three the reader
+   always strips, so such an entry can never be delivered - c04_details_entry_never_delivered).
+   The only bound is the capacity of http::HeaderMap itself: 24576 distinct names in the finished
+   map; it is exact (c04_write_panics_iff). *)
 Theorem c04_trailers_roundtrip : forall st,
   well_formed st -> utf8_valid (st_msg st) = true ->
-  hm_get_all (st_md st) hdr_grpc_status_details = [] ->
   hm_names (sanitize (st_md st)) + n_written st <= HM_MAX_NAMES ->
   exists m st',
     to_header_map_c st = WOk m /\ from_header_map m = Some st' /\
     st_code st' = st_code st /\ st_msg st' = st_msg st /\ st_details st' = st_details st /\
-    forall k, hm_get_all (st_md st') k = hm_get_all (sanitize (st_md st)) k.
+    forall k, hm_get_all (st_md st') k =
+              if bytes_eqb k hdr_grpc_status_details then [] else hm_get_all (sanitize (st_md st)) k.
 Proof. exact trailers_roundtrip. Qed.
 
 (* the same through Status::add_header into a fresh map *)
 Theorem c04_status_roundtrip : forall st,
   well_formed st -> utf8_valid (st_msg st) = true ->
-  hm_get_all (st_md st) hdr_grpc_status_details = [] ->
   hm_names (sanitize (st_md st)) + n_written st <= HM_MAX_NAMES ->
   exists m st',
     add_header_c st [] = WOk m /\ from_header_map m = Some st' /\
     st_code st' = st_code st /\ st_msg st' = st_msg st /\ st_details st' = st_details st /\
-    forall k, hm_get_all (st_md st') k = hm_get_all (sanitize (st_md st)) k.
+    forall k, hm_get_all (st_md st') k =
+              if bytes_eqb k hdr_grpc_status_details then [] else hm_get_all (sanitize (st_md st)) k.
 Proof. exact fresh_roundtrip. Qed.
 
 (* the head of a Trailers-Only response (Status::into_http): content-type stays the gRPC one
    whatever the metadata says, the status is read back equal *)
 Theorem c04_into_http_roundtrip : forall st,
   well_formed st -> utf8_valid (st_msg st) = true ->
-  hm_get_all (st_md st) hdr_grpc_status_details = [] ->
   hm_names (sanitize (st_md st)) + 4 <= HM_MAX_NAMES ->
   exists m st',
     into_http_c st = Some m /\
@@ -47,16 +51,44 @@ Theorem c04_into_http_roundtrip : forall st,
     st_code st' = st_code st /\ st_msg st' = st_msg st /\ st_details st' = st_details st /\
     forall k, hm_get_all (st_md st') k =
               if bytes_eqb k hdr_content_type then [grpc_content_type]
+              else if bytes_eqb k hdr_grpc_status_details then []
               else hm_get_all (sanitize (st_md st)) k.
 Proof. exact into_http_roundtrip. Qed.
 
-(* add_header into ANY existing map without a stale grpc-message / grpc-status-details-bin:
-   whenever the write succeeds the status is read back; the other names of the map survive
-   unless the status metadata overrides them *)
+(* the metadata conjunct, and only it, depends on the premise the round trips had before the
+   fix: a metadata with no entry named grpc-status-details-bin comes back whole (every name of
+   the sanitised metadata) ... *)
+Theorem c04_metadata_whole : forall md,
+  hm_get_all md hdr_grpc_status_details = [] ->
+  forall k, (if bytes_eqb k hdr_grpc_status_details then [] else hm_get_all (sanitize md) k)
+            = hm_get_all (sanitize md) k.
+Proof. exact md_delivered_whole. Qed.
+
+(* ... and whatever the metadata, the entry named grpc-status-details-bin itself can never be
+   delivered: EVERY status the reader produces, from any header map, has no metadata under the
+   three status header names *)
+Theorem c04_details_entry_never_delivered : forall m st,
+  from_header_map m = Some st ->
+  hm_get_all (st_md st) hdr_grpc_status = [] /\
+  hm_get_all (st_md st) hdr_grpc_message = [] /\
+  hm_get_all (st_md st) hdr_grpc_status_details = [].
+Proof. exact status_names_never_delivered. Qed.
+
+(* F-C04e as a statement about the written map: whenever add_header succeeds, into ANY map, the
+   details header of the finished map is the status's own details or absent - never the
+   metadata's or the target map's entry of that name *)
+Theorem c04_details_header_is_own : forall st m0 m,
+  add_header_c st m0 = WOk m ->
+  hm_get_all m hdr_grpc_status_details =
+  match st_details st with [] => [] | _ => [enc false (st_details st)] end.
+Proof. exact details_header_is_own. Qed.
+
+(* add_header into ANY existing map without a stale grpc-message (a stale
+   grpc-status-details-bin in the map no longer matters): whenever the write succeeds the status
+   is read back; the other names of the map survive unless the status metadata overrides them *)
 Theorem c04_add_header_roundtrip : forall st m0 m,
   well_formed st -> utf8_valid (st_msg st) = true ->
-  hm_get_all (st_md st) hdr_grpc_status_details = [] ->
-  hm_get_all m0 hdr_grpc_message = [] -> hm_get_all m0 hdr_grpc_status_details = [] ->
+  hm_get_all m0 hdr_grpc_message = [] ->
   add_header_c st m0 = WOk m ->
   exists st', from_header_map m = Some st' /\
     st_code st' = st_code st /\ st_msg st' = st_msg st /\ st_details st' = st_details st /\
@@ -236,14 +268,21 @@ Theorem c04_hyper_timeout_cancel : forall ws h rest,
 Proof. exact hyper_timeout_cancel. Qed.
 
 (* ------------------------------------------------------------------ non-vacuity *)
-(* a concrete hostile-looking status meets the hypotheses of the round trips *)
+(* a concrete hostile-looking status meets the hypotheses of the round trips - its metadata
+   holds an entry named grpc-status-details-bin (the shape of F-C04e) *)
 Example c04_roundtrip_premises_hold :
   let st := mkStatus 5 [97; 58; 37; 32; 127; 195; 169] [0; 255; 7; 9]
-                     [([120; 45; 97], [118]); ([116; 101], [120])] in
+                     [([120; 45; 97], [118]); (hdr_grpc_status_details, [65; 81]); ([116; 101], [120])] in
   well_formed st /\ utf8_valid (st_msg st) = true /\
-  hm_get_all (st_md st) hdr_grpc_status_details = [] /\
+  hm_get_all (st_md st) hdr_grpc_status_details <> [] /\
   hm_names (sanitize (st_md st)) + n_written st <= HM_MAX_NAMES.
-Proof. repeat split; try reflexivity. vm_compute. discriminate. Qed.
+Proof. repeat split; try reflexivity; vm_compute; discriminate. Qed.
+(* the witness of F-C04e evaluated: no details, metadata entry grpc-status-details-bin = "AQ"
+   (base64 of the byte 1): read back with EMPTY details (before the fix: [1]) *)
+Example c04_f_c04e_witness :
+  obs_roundtrip_c (mkStatus 3 [] [] [(hdr_grpc_status_details, [65; 81])]) =
+  Nd [Nn 1; hm_canon [(hdr_grpc_status, [51])]; oopt status_obs (Some (mkStatus 3 [] [] []))].
+Proof. vm_compute. reflexivity. Qed.
 
 (* the Panic outcome is reachable (24576 metadata names) and metadata values alone never reach it
    (the witness of F-C04d: 24574 values under one name) *)
@@ -259,6 +298,9 @@ Proof. reflexivity. Qed.
 
 Print Assumptions c04_trailers_roundtrip.
 Print Assumptions c04_into_http_roundtrip.
+Print Assumptions c04_add_header_roundtrip.
+Print Assumptions c04_details_entry_never_delivered.
+Print Assumptions c04_details_header_is_own.
 Print Assumptions c04_write_panics_iff.
 Print Assumptions c04_header_values_legal.
 Print Assumptions c04_from_header_map_total.
